@@ -26,7 +26,7 @@ RULE = ('A: BFS over operation histories (insert/overwrite/pop/copy/clear/invali
         'map holds >=2 names sharing a suffix or the spelling pair differs.')
 ASSUMPTIONS = ['name alphabet {a,b,c} with <=3 components stored and <=4 queried; at most 2 live map objects',
                'reference model: flat dict + brute-force suffix test']
-WITNESSES = ['method_names_resolve_back', 'unknown_skipped_silently', 'ambiguous', 'exact_precedence', 'unknown', 'minimal_shorter_than_full', 'copy_diverged',
+WITNESSES = ['percent_spelling_is_gin_macro', 'method_names_resolve_back', 'unknown_skipped_silently', 'ambiguous', 'exact_precedence', 'unknown', 'minimal_shorter_than_full', 'copy_diverged',
              'pop_pruned', 'spelling_pair_same_key', 'hook_conflict_detected', 'api_ambiguous_rejected']
 
 POOL_Q = ['b', 'a.b', 'c.a.b', 'c.b', 'a.a', 'b.a', 'a.c.b', 'c', 'a.B']
@@ -634,9 +634,36 @@ def run_method_names(res):
   harness.hard_reset()
 
 
+def run_user_macro(res):
+  """`%name` is spelled through gin's own macro configurable, whatever else a user registers under the name `macro`."""
+  case = ['user_configurable_named_macro']
+  harness.hard_reset()
+  res.case(tuple(case), True)
+
+  def macro(value=None):
+    return ('user macro', value)
+  gin.external_configurable(macro, name='macro', module='c08userlib')
+  try:
+    gin.bind_parameter('%c08m', 5)
+    q = gin.query_parameter('%c08m')
+    gin.parse_config('cons.consumer.r = %c08m\nc08m2 = 6')
+    got = (q, CONSUMER(), gin.query_parameter('%c08m2'))
+  except Exception as e:  # pylint: disable=broad-except
+    res.violation('spelling_mismatch', '%r: with a user configurable named `macro` registered, the %%name spelling of a '
+                  'macro raised %r' % (case, e), case)
+    harness.hard_reset()
+    return
+  if got != (5, 5, 6):
+    res.violation('spelling_mismatch', '%r: got %r, expected (5, 5, 6)' % (case, got), case)
+  else:
+    res.w('percent_spelling_is_gin_macro')
+  harness.hard_reset()
+
+
 def run(ctx):
   res = core.Result()
   run_method_names(res)
+  run_user_macro(res)
   run_a(ctx, res)
   cases = list(b_cases()) + list(hook_cases())
   res.sample({'api_case': cases[len(cases) // 3]})
@@ -653,6 +680,8 @@ def replay(obj):
     res = core.Result()
     if obj[0] == 'method_names':
       run_method_names(res)
+    elif obj[0] == 'user_configurable_named_macro':
+      run_user_macro(res)
     elif obj[0] in ('hook', 'const', 'macro_spelling'):
       run_hook_case(obj, res)
     else:
